@@ -2,6 +2,8 @@
 C19 helper lemmas, part 3: `newIndex` on the rendering of a well-formed file yields exactly the true entries.
 -/
 import Hts.Lemmas.FaiStep
+set_option linter.unusedVariables false
+set_option linter.unusedSimpArgs false
 namespace Hts.Lemmas.Fai
 open Hts.Model.Fai
 open Hts.Spec.Fasta (isGraphic isBase isDescByte isBlankByte Rec Eol Entry seqLines terminate blankLines
